@@ -464,13 +464,15 @@ func ruleSniffScan(c *eng.Ctx) {
 	c.Check(okOrder, R, "format.detectZIPFormat#order", fn.Pos(), "mimetype, then container.xml, then OOXML prefixes", "sniffing stages are not three separate full scans in the order mimetype, container.xml, prefixes (an ODT with an embedded xl/ member would be mis-detected)")
 	// mimetype values
 	okMime := false
-	eng.Instrs(fn, false, func(in ssa.Instruction) {
-		if call, ok := in.(*ssa.Call); ok && eng.CalleeName(call) == "strings.Contains" {
-			if cs, ok := eng.ConstString(call.Call.Args[1]); ok && cs == "application/vnd.oasis.opendocument.text" {
-				okMime = true
+	for _, h := range eng.Cluster(fn, 2) { // the mimetype test may live in a helper of the package
+		eng.Instrs(h, false, func(in ssa.Instruction) {
+			if call, ok := in.(*ssa.Call); ok && eng.CalleeName(call) == "strings.Contains" {
+				if cs, ok := eng.ConstString(call.Call.Args[1]); ok && cs == "application/vnd.oasis.opendocument.text" {
+					okMime = true
+				}
 			}
-		}
-	})
+		})
+	}
 	c.Check(okMime, R, "format.detectZIPFormat#odt-mimetype", fn.Pos(), "ODT is recognised by its mimetype", "the OpenDocument text mimetype is no longer recognised")
 }
 
